@@ -127,13 +127,19 @@ Proof. exact st_super_safe. Qed.
 
 (* ---- copy / pickle of frozen slotted instances: _slots_setstate --------------------------- *)
 (* For every well-formed instance (any slot names, any values, with or without an instance __dict__, any
-   content of it) whose default state is not a bare non-empty dict: __new__ + _slots_setstate(__getstate__())
-   rebuilds the same slot values AND the same instance __dict__ (object.__getstate__ is a contract, sampled
-   against the interpreter on every run). *)
-Theorem C19_setstate_restores : forall i, wf_inst i = true -> state_guard i = true ->
+   content of it): __new__ + _slots_setstate(__getstate__()) rebuilds the same slot values AND the same
+   instance __dict__ (object.__getstate__ is a contract, sampled against the interpreter on every run). *)
+Theorem C19_setstate_restores : forall i, wf_inst i = true ->
   exists r, restore i = SOk r /\ i_slotnames r = i_slotnames i
             /\ same_store (i_slots r) (i_slots i) /\ same_dict (i_dict r) (i_dict i).
 Proof. exact restore_ok. Qed.
+
+(* in particular when no member slot holds a value (a class without fields) and the state is therefore the
+   bare instance __dict__ -- the case that raised AttributeError before
+   proposed_fixes/C19-setstate-bare-dict-state.diff *)
+Theorem C19_setstate_fieldless : forall i, wf_inst i = true -> i_slots i = [] ->
+  exists r, restore i = SOk r /\ i_slots r = [] /\ same_dict (i_dict r) (i_dict i).
+Proof. exact restore_fieldless. Qed.
 
 (* ======================= witnesses ======================================================= *)
 Definition S (s : string) : string := s.
@@ -211,20 +217,20 @@ Proof.
   apply (Hs "describe"%string). left. reflexivity.
 Qed.
 
-(* open (known finding KF-C19-setstate-bare-dict-state): a frozen slotted class WITHOUT any member slot
-   holding a value but WITH a non-empty instance __dict__ has the bare dict as its state; _slots_setstate
-   iterates it as if it were the (dict, slots) pair and fails on the first key *)
+(* fixed (proposed_fixes/C19-setstate-bare-dict-state.diff): a frozen slotted instance without any member slot
+   holding a value but with a non-empty instance __dict__ has the bare dict as its state *)
 Definition ex_dict_only : inst :=
   {| i_slotnames := []; i_slots := []; i_dict := Some [("_derived"%string, OId 1)] |}.
-Theorem C19_refuted_setstate_bare_dict : exists i,
-  wf_inst i = true /\ state_guard i = false /\ restore i = SRaise SAttribute.
-Proof. exists ex_dict_only. vm_compute. repeat split. Qed.
+Example C19_setstate_fieldless_example :
+  wf_inst ex_dict_only = true /\ getstate ex_dict_only = SDict [("_derived"%string, OId 1)] /\
+  restore ex_dict_only = SOk ex_dict_only.
+Proof. vm_compute. repeat split. Qed.
 
 Definition ex_inst : inst :=
   {| i_slotnames := ["a"; "b"]%string; i_slots := [("b"%string, OId 2); ("a"%string, OId 1)];
      i_dict := Some [("_derived"%string, OId 3); ("cp"%string, OId 4)] |}.
 Example C19_setstate_hyps_satisfiable :
-  wf_inst ex_inst = true /\ state_guard ex_inst = true /\
+  wf_inst ex_inst = true /\
   getstate ex_inst = SSeq [Some [("_derived"%string, OId 3); ("cp"%string, OId 4)];
                            Some [("b"%string, OId 2); ("a"%string, OId 1)]] /\
   restore ex_inst = SOk ex_inst.
@@ -270,7 +276,7 @@ Print Assumptions C19_nothing_else.
 Print Assumptions C19_defaults.
 Print Assumptions C19_super_safe.
 Print Assumptions C19_setstate_restores.
-Print Assumptions C19_refuted_setstate_bare_dict.
+Print Assumptions C19_setstate_fieldless.
 Print Assumptions C19_refuted_zero_arg_super.
 Print Assumptions C19_full_is_false.
 Print Assumptions C19_refuted_weakref_base.
